@@ -195,6 +195,8 @@ def big_tasks(tier):
         else:
             for f in fams[alg]:
                 tasks.append(dict(engine="hashmb", variant="plain", timeout=7000, args=["--prop", "C15", "--mode", "big", "--alg", alg, "--fam", f, "--thr", "29,32,33", "--rounds", 2, "--watchdog", 6900]))
+        # all families, all routes: the running total is moved next to each threshold while a context is idle (see rule)
+        tasks.append(dict(engine="hashmb", variant="plain", args=["--prop", "C15", "--alg", alg, "--route", "fam,isal,legacy", "--inject", 3, "--jump", 1, "--from", 1000000, "--count", 600 if tier == "quick" else 20000]))
         # small histories: total_length at every hand-back
         tasks.append(dict(engine="hashmb", variant="plain", args=["--prop", "C15", "--alg", alg, "--route", "fam,isal", "--inject", 4, "--from", 0, "--count", 300 if tier == "quick" else 5000]))
     return tasks
@@ -492,12 +494,12 @@ CHECKS = {
                 args=["--prop", "C20", "--alg", alg, "--fam", "base,sse,avx,avx2", "--route", "fam,isal", "--uninit", 1, "--inject", 0, "--from", 0, "--count", 15 if tier == "quick" else 600, "--watchdog", 2900]) for alg in HASH_ALGS],
     ),
     "C15": dict(
-        level="exploration", evaluations=["big_handbacks", "completes"], must_observe=["big_jobs_completed", "big_jobs_2^29", "big_jobs_2^32", "big_handbacks", "big_single_submits_ge_2^31", "big_zero_length_updates"],
+        level="exploration", evaluations=["big_handbacks", "completes"], must_observe=["big_jobs_completed", "big_jobs_2^29", "big_jobs_2^32", "big_handbacks", "big_single_submits_ge_2^31", "big_zero_length_updates", "length_jumps"],
         rule=("per (algorithm, family) a manager is filled with lanes+1 jobs that all hash the same periodic multi-GiB stream (64 MiB memfd mirrored back to back) with different "
               "segmentations: a segment boundary at the threshold, 1/63/64 bytes below or above it, zero-length UPDATEs exactly at it, single submits of 2^32-1, 2^32-64, 2^31 bytes, "
               "random further cuts, final totals with residues 0..3 blocks; after every hand-back total_length is compared with the sum of accepted segment lengths and each completed "
-              "digest with an OpenSSL streaming pass over the same bytes (snapshots at each total; cross-validated with the reference on a prefix). quick: threshold 2^29 on all 28 pairs and "
-              "2^32 on the avx512 family of each algorithm; thorough: 2^29, 2^32 and 2^32+2^29 on all 28 pairs, two rounds. Small random histories add the total_length check at every hand-back. "
+              "digest with an OpenSSL streaming pass over the same bytes (snapshots at each total; cross-validated with the reference on a prefix). quick: real streams across 2^29 on all 28 pairs and across 2^32 on the avx512 family of each algorithm; thorough: real streams across 2^29, 2^32 and 2^32+2^29 on all 28 pairs, two rounds. "
+              "In both tiers random histories on all 28 pairs x 3 routes additionally move an idle context's documented running total (and the model's) forward by whole blocks to just below a threshold, so the following segments cross it at every residue without hashing gigabytes (the expected digest is the reference hash of the submitted bytes padded with the adjusted total). Small random histories add the total_length check at every hand-back. "
               "distinct_nontrivial = distinct (family, threshold, running total mod 2 blocks, flags, above/below threshold)"),
         assumptions=TRUST + ["OpenSSL 3.0 EVP digests as oracle for multi-GiB streams"],
         tasks=big_tasks,
